@@ -32,7 +32,7 @@ ASSUMPTIONS = [
 def scalar_of(s):
     kind, v = s
     return {"int": int, "float": float, "np_int64": np.int64, "np_int32": np.int32, "np_float64": np.float64,
-            "np_float32": np.float32}[kind](v)
+            "np_float32": np.float32, "np_int16": np.int16, "np_int8": np.int8, "np_uint8": np.uint8, "np_uint16": np.uint16}[kind](v)
 
 
 def eps_of(dtype) -> float:
@@ -173,8 +173,12 @@ GENERAL_FLOAT = [1.5, 0.1, 3.3, 2.5, 1e-3, 1e3, 0.7, 1 / 3]
 
 @st.composite
 def scalars(draw):
-    cls = draw(st.sampled_from(["pow2", "pow2", "int", "float"]))
-    if cls == "pow2":
+    cls = draw(st.sampled_from(["pow2", "pow2", "int", "float", "narrow"]))
+    if cls == "narrow":
+        # numpy integer scalars whose square (or product with the contents) leaves their own type
+        kind, v = draw(st.sampled_from([("np_int8", 100), ("np_int8", 12), ("np_int16", 200), ("np_int16", 1000), ("np_uint8", 200),
+                                        ("np_uint8", 16), ("np_int32", 70000), ("np_uint16", 300), ("np_int8", 4), ("np_uint8", 2)]))
+    elif cls == "pow2":
         v = draw(st.sampled_from(POW2))
         kind = draw(st.sampled_from(["int", "np_int64", "np_int32"] if float(v).is_integer() else ["float", "np_float64", "np_float32"])) if float(v).is_integer() and draw(st.booleans()) else draw(st.sampled_from(["float", "np_float64", "np_float32"]))
     elif cls == "int":
@@ -189,12 +193,12 @@ def scalars(draw):
 @st.composite
 def scale_cases(draw, tier="quick"):
     ops = draw(st.lists(st.tuples(st.sampled_from(["mul", "rmul", "div", "imul", "idiv"]), scalars()).map(list), min_size=1, max_size=4))
-    big_seen = False
-    for op in ops:  # at most one large factor per chain: squared errors must stay inside int64 (overflow is out of domain)
-        if op[1][1] >= 1000:
-            if big_seen:
-                op[1][1] = 3
-            big_seen = True
+    prod_sq = 1.0
+    for op in ops:  # the squared factors of a chain stay below 2**45: squared errors must stay inside int64 (overflow is out of domain)
+        if op[0] in ("mul", "rmul", "imul") and op[1][1] > 1:
+            if prod_sq * op[1][1] ** 2 > 2.0 ** 45:
+                op[1] = ["int", 3]
+            prod_sq *= op[1][1] ** 2
     if draw(st.sampled_from([True, True, False])):
         spec = draw(hgen.hist_spec(dims=(1, 1, 2, 3), dtypes=["int16", "int32", "int64", "float32", "float64"], adaptive=False, nan_missed=False))
         # keep magnitudes inside the exact range of the narrowest type under small chains
